@@ -641,7 +641,7 @@ def _rhe(n, d):
 MUTANTS = ["none", "reduce_gt", "round_minted", "round_share", "community_truncated", "no_burn", "offset_sign", "no_start_marker",
            "any_identifier", "start_lte", "mint_before_reduction", "vest_lte", "ratio_gte", "marker_every_epoch", "minter_not_saved",
            "dev_from_mint", "pool_share_to_fee", "offset_full_dev", "empty_to_first_receiver", "hook_skipped", "hook_all_to_community",
-           "hook_all_to_gauges"]
+           "hook_all_to_gauges", "empty_gets_whole_dev"]
 
 
 def sim(c, init, mut):
@@ -710,6 +710,8 @@ def sim(c, init, mut):
                 por = share(dev, int(rc["w"]))
                 if rc["a"] == -2:
                     raise ValueError("blocked")
+                if mut == "empty_gets_whole_dev" and rc["a"] == -1:      # seeded change C18a
+                    por = dev
                 if s[src] < por:
                     raise ValueError("funds")
                 s[src] -= por
